@@ -54,7 +54,7 @@ def fixed_cases(tier):
 
 
 def n_generated(tier):
-    return 3000 if tier == "quick" else 50000
+    return 1500 if tier == "quick" else 50000
 
 
 def strategy(tier):
@@ -64,12 +64,25 @@ def strategy(tier):
     return st.one_of(fx, fx, mut)
 
 
-def on_timeout(case, tier):
+def _hang_site(exc):
+    """the function that does not terminate: deepest frame inside vsg/vhdlFile/classify (else deepest vsg frame) when the guard fired"""
+    import traceback
+
+    tb = traceback.extract_tb(exc.__traceback__) if exc is not None else []
+    fr = [x for x in tb if "/vsg/" in x.filename and "/harness/" not in x.filename]
+    cl = [x for x in fr if "/vsg/vhdlFile/classify/" in x.filename and not x.filename.endswith("classify/utils.py")]
+    pick = (cl or fr or [None])[-1]
+    if pick is None:
+        return "?"
+    return "%s:%s" % (os.path.relpath(pick.filename, vsgapi.REPO), pick.name)
+
+
+def on_timeout(case, tier, exc=None):
     concrete = dict(case)
     if case.get("k") == "mut" and "text" not in case:
         text, ops = mutants.mutate(corpus.text(case["file"]), random.Random(case["mseed"]))
         concrete = {"k": "mut", "text": text, "style": case.get("style")}
-    return {"labels": {"hang_guard_hit": 1}, "nontrivial": [], "failures": [{"sig": {"kind": "hang", "k": case.get("k")}, "detail": {"limit_s": CASE_TIME_LIMIT}, "case": concrete}]}
+    return {"labels": {"hang_guard_hit": 1}, "nontrivial": [], "failures": [{"sig": {"kind": "hang", "where": _hang_site(exc)}, "detail": {"limit_s": CASE_TIME_LIMIT, "k": case.get("k")}, "case": concrete}]}
 
 
 def run_case(case, tier):
